@@ -53,7 +53,7 @@ func execGeneric(r *rc, base *otto.Otto, c gcase, sampleMod uint32) {
 			return
 		}
 	}
-	res := ox.Guard(func() (otto.Value, error) { return c.Do(vm) })
+	res := ox.Guard(func() (otto.Value, error) { v, err := c.Do(vm); touchErr(err); return v, err })
 	var acc ox.Result
 	if !res.Panicked && res.Err == nil {
 		acc = ox.Guard(func() (otto.Value, error) {
@@ -91,6 +91,19 @@ func execGeneric(r *rc, base *otto.Otto, c gcase, sampleMod uint32) {
 			break
 		}
 	}
+}
+
+// touchErr applies the accessors of an error handed back by the API (the
+// *otto.Error methods format positions and stack frames lazily).
+func touchErr(err error) {
+	if err == nil {
+		return
+	}
+	_ = err.Error()
+	if oe, ok := err.(*otto.Error); ok {
+		_ = oe.String()
+	}
+	_ = fmt.Sprintf("%v %+v", err, err)
 }
 
 // ---------------------------------------------------------------------------
@@ -235,8 +248,12 @@ func runWalkMutation(r *rc) {
 // ---------------------------------------------------------------------------
 // sinks
 
+// NamedBool is a named bool type.
+type NamedBool bool
+
 // Sink types handed to the script as host functions / bridged containers.
 type sinkStruct struct {
+	Fn func()
 	S  string
 	I  int
 	B  []byte
@@ -270,6 +287,10 @@ var stringSources = []struct{ Name, Src string }{
 	{"u16-in-object", `({k: String.fromCharCode(97)})`},
 	{"u16-key-object", `(function(){ var o = {}; o[String.fromCharCode(107)] = "v"; return o })()`},
 	{"u16-toString", `({toString: function(){ return String.fromCharCode(97) }})`},
+	{"host-invalid-utf8", `hostBad`},
+	{"host-invalid-utf8-mid", `hostBadMid`},
+	{"host-bytes", `String(hostBytes)`},
+	{"host-named-string", `hostNamed`},
 }
 
 // script sinks: %V is the value; the bridged names are installed on the base.
@@ -281,7 +302,32 @@ var scriptSinks = []string{
 	`st[%V]`, `st[%V] = 1`, `st.Method(%V)`,
 	`mSI[%V] = 1`, `mSI[%V]`, `delete mSI[%V]`, `%V in mSI`, `mSS.k = %V`, `mSS[%V] = %V`, `mII[%V] = 1`, `mII[1] = %V`, `mSA.k = %V`, `mNamed[%V] = 1`, `mNamed[%V]`,
 	`sS[0] = %V`, `sS.push(%V)`, `sS[%V]`, `sI[0] = %V`, `sB[0] = %V`, `sA[0] = %V`, `sA.push(%V)`, `aS[0] = %V`, `sS.indexOf(%V)`, `sS.join(%V)`,
+	`fNamedBool(%V)`, `fNamedBool(true)`, `fCallback(function(x){ return %V })`, `fCallbackS(function(x){ return %V })`, `fCallbackS(function(x){ throw %V })`,
+	`try { fCallback(function(x){ throw %V }) } catch (e) { "caught" }`, `st.Fn = function(){ throw %V }; try { st.Fn() } catch (e) { "caught" }`, `st.Fn = function(){ return %V }; st.Fn()`,
+	`fCallback(%V)`, `fCallback(null)`, `fCallback(function(){ return fCallback(function(){ throw %V }) })`, `st.Fn()`, `st.Fn = null; st.Fn()`, `fNilFunc()`,
+	`"abc".replace(%V, "x")`, `"abc".replace("b", %V)`, `"abc".replace(/b/, %V)`, `"abc".split(%V).length`, `"abc".indexOf(%V)`, `"abc".lastIndexOf(%V)`, `"abc".match(%V)`, `"abc".search(%V)`,
+	`new RegExp(%V).test("abc")`, `RegExp("a", %V)`, `"abc".concat(%V).length`, `"abc".localeCompare(%V)`, `%V.replace("a", "b")`, `%V.split("").length`, `%V.toUpperCase() + %V.toLowerCase() + %V.trim()`,
+	`%V.charAt(0) + %V.charCodeAt(0) + %V.length + %V[0]`, `%V.substring(1) + %V.slice(-1) + %V.substr(0, 1)`, `JSON.parse(%V)`, `JSON.stringify(%V) + JSON.stringify({k: %V}, null, %V)`, `eval(%V)`, `Function(%V)`, `Function(%V, "")`,
+	`parseInt(%V) + parseFloat(%V) + Number(%V)`, `encodeURIComponent(%V) + encodeURI(%V)`, `decodeURIComponent(%V) + unescape(%V) + escape(%V)`, `new Date(%V).getTime() + Date.parse(%V)`,
+	`(1).toLocaleString(%V)`, `new Error(%V).stack + String(new TypeError(%V))`, `Object.keys(Object(%V)).length`, `[%V].join(%V) + [%V, %V].sort()`, `Array(%V).length`, `(function(){ return arguments })(%V)[0]`,
 	`Array.prototype.concat.call(sS, %V).length`, `JSON.stringify([fAny(%V), st, mSS, sS])`,
+}
+
+// twinOps use two string values a and b (every ordered pair of representations).
+var twinOps = []string{
+	`a === b`, `a == b`, `a != b`, `a < b`, `a >= b`, `a + b`, `(function(){ switch (a) { case b: return 1 } return 0 })()`,
+	`[a].indexOf(b) + [a].lastIndexOf(b)`, `[a, b, a].sort().length`, `[a, b].sort(function(x, y){ return x < y ? -1 : x > y ? 1 : 0 }).length`,
+	`(function(){ var o = {}; Object.defineProperty(o, "k", {value: a}); Object.defineProperty(o, "k", {value: b}); return o.k })()`,
+	`(function(){ var o = {}; Object.defineProperty(o, "k", {value: a, writable: false, enumerable: true}); try { Object.defineProperty(o, "k", {value: b, writable: false, enumerable: true}) } catch (e) { return e.name } return o.k })()`,
+	`(function(){ var o = {}; Object.defineProperty(o, a, {value: b}); try { Object.defineProperty(o, a, {value: b}); Object.defineProperty(o, b, {value: a}) } catch (e) { return e.name } return Object.getOwnPropertyNames(o).length })()`,
+	`(function(){ var o = {}; o[a] = 1; o[b] = 2; return [o[a], o[b], a in o, delete o[b], Object.keys(o).length].join() })()`,
+	`(function(){ var o = Object.freeze({k: a}); o.k = b; try { Object.defineProperty(o, "k", {value: b}) } catch (e) { return e.name } return o.k })()`,
+	`(function(){ var x = [a]; Object.freeze(x); try { x[0] = b; Object.defineProperty(x, "0", {value: b}) } catch (e) { return e.name } return x[0] })()`,
+	`(function(f){ return f(a) === f(b) })(function(x){ return arguments[0] })`,
+	`a.indexOf(b) + a.lastIndexOf(b) + a.localeCompare(b)`, `a.replace(b, a) + a.split(b).length + a.concat(b).length`, `a.match(b) + a.search(b)`,
+	`JSON.stringify([a, b]) === JSON.stringify([b, a])`, `Object.is ? Object.is(a, b) : 0`, `a in {} || b in []`,
+	`mSS[a] = b; mSS[b] = a; mSS[a] === mSS[b]`, `sS[0] = a; sS[1] = b; sS.indexOf(b) + sS.lastIndexOf(a)`, `st.S = a; st.S === b`,
+	`(function(){ try { throw a } catch (e) { return e === b } })()`, `new Error(a).message === b`, `isNaN(a) === isNaN(b)`, `[a] == b`, `new String(a) == b`,
 }
 
 func newSinkBase() *otto.Otto {
@@ -334,23 +380,31 @@ func newSinkBase() *otto.Otto {
 	set("fTwo", func(a string, b interface{}) (string, interface{}) { return a, b })
 	set("fError", func(s string) (string, error) { return s, fmt.Errorf("host error %q", s) })
 	set("fNone", func() {})
+	set("fNamedBool", func(b NamedBool) NamedBool { return !b })
+	set("fCallback", func(f func(int) int) int { return f(1) })
+	set("fCallbackS", func(f func(string) string) string { return f("s") })
+	set("fNilFunc", (func())(nil))
 	return vm
 }
 
 func installSinkContainers(vm *otto.Otto) error {
 	p := "p"
 	for name, v := range map[string]interface{}{
-		"st":     &sinkStruct{S: "s", L: []string{"l"}, M: map[string]string{"k": "v"}, P: &p},
-		"mSI":    map[string]int{"a": 1},
-		"mSS":    map[string]string{"a": "1"},
-		"mII":    map[int]int{1: 1},
-		"mSA":    map[string]interface{}{"a": 1},
-		"mNamed": map[NamedKey]int{"a": 1},
-		"sS":     []string{"a", "b"},
-		"sI":     []int{1, 2},
-		"sB":     []byte{1, 2},
-		"sA":     []interface{}{1, "b"},
-		"aS":     &[2]string{"a", "b"},
+		"hostBad":    "\xff",
+		"hostBadMid": "a\xffb\xc3",
+		"hostBytes":  []byte{0xff, 'a'},
+		"hostNamed":  NamedKey("named"),
+		"st":         &sinkStruct{S: "s", L: []string{"l"}, M: map[string]string{"k": "v"}, P: &p},
+		"mSI":        map[string]int{"a": 1},
+		"mSS":        map[string]string{"a": "1"},
+		"mII":        map[int]int{1: 1},
+		"mSA":        map[string]interface{}{"a": 1},
+		"mNamed":     map[NamedKey]int{"a": 1},
+		"sS":         []string{"a", "b"},
+		"sI":         []int{1, 2},
+		"sB":         []byte{1, 2},
+		"sA":         []interface{}{1, "b"},
+		"aS":         &[2]string{"a", "b"},
 	} {
 		if err := vm.Set(name, v); err != nil {
 			return err
@@ -477,6 +531,27 @@ func runSinks(r *rc) {
 			execGeneric(r, base, c, 53)
 		}
 	}
+	// representation twins: BOTH operands of every internal comparison / key use
+	for _, a := range stringSources {
+		for _, b := range stringSources {
+			for i, op := range twinOps {
+				key := fmt.Sprintf("%s|twin-%02d|%s", a.Name, i, b.Name)
+				if !r.MineKey(key) {
+					continue
+				}
+				js := "var a = " + a.Src + ", b = " + b.Src + "; " + op
+				c := gcase{Key: key, Desc: js, Limit: entryStackLimit, Aux: map[string]string{"group": "twin", "source": a.Name, "source2": b.Name, "sink": op},
+					Do: func(vm *otto.Otto) (otto.Value, error) {
+						if err := installSinkContainers(vm); err != nil {
+							return otto.Value{}, err
+						}
+						return vm.Run(js)
+					}}
+				execGeneric(r, base, c, 997)
+			}
+		}
+	}
+	r.Bound("twin_operations", fmt.Sprint(len(twinOps)))
 	r.Bound("string_sources", fmt.Sprint(len(stringSources)))
 	r.Bound("script_sinks", fmt.Sprint(len(scriptSinks)))
 	r.Bound("go_sinks", fmt.Sprint(len(goSinks)))
